@@ -71,6 +71,8 @@ func (g *Gen) Case(i int) Case {
 		rates.Panic = 40
 	case "c06":
 		rates.Delay, rates.MaxDelay = 400, 300
+	case "c13":
+		rates.Delay, rates.MaxDelay = 300, 300
 	case "clean":
 		rates = Rates{MaxLen: 3}
 	}
